@@ -212,6 +212,8 @@ func main() {
 	}
 	sort.Strings(writers)
 
+	shapes := handlerShapes(*repo)
+
 	var o strings.Builder
 	o.WriteString("(* GENERATED by /verif/harness/cmd/gen_govhandlers from x/gov/proposal_handler.go and x/gov/types/router.go -- do not edit *)\n")
 	o.WriteString("From Sekai Require Import Base.Prelude.\n")
@@ -230,10 +232,249 @@ func main() {
 		if i == len(writers)-1 {
 			sep = ""
 		}
-		fmt.Fprintf(&o, "  %q%s\n", w, sep)
+		fmt.Fprintf(&o, "  %s%s\n", coqStr(w), sep)
+	}
+	o.WriteString("]%string.\n")
+	o.WriteString("(* error-handling shape of the Apply method of EVERY handler registered in app.go's proposal router:\n   swallowed = an `if err != nil` block that neither returns a non-nil error nor panics; blank = a call result assigned to _ in last position;\n   unchecked = an error-returning function called as a statement.  Any entry means Apply can report success after a failed step. *)\n")
+	o.WriteString("Definition handler_error_shapes : list (string * list string) := [\n")
+	for i, h := range shapes {
+		sep := ";"
+		if i == len(shapes)-1 {
+			sep = ""
+		}
+		var fs []string
+		for _, f := range h.findings {
+			fs = append(fs, coqStr(f))
+		}
+		fmt.Fprintf(&o, "  (%s, [%s])%s\n", coqStr(h.name), strings.Join(fs, "; "), sep)
 	}
 	o.WriteString("]%string.\n")
 	if err := os.WriteFile(*out, []byte(o.String()), 0o644); err != nil {
 		die("%v", err)
 	}
+}
+
+// ---------------------------------------------------------------- error-handling shapes of all registered handlers
+
+type shape struct {
+	name     string
+	findings []string
+}
+
+func parseDir(dir string) []*ast.File {
+	var fs []*ast.File
+	ents, err := os.ReadDir(dir)
+	if err != nil {
+		die("%v", err)
+	}
+	for _, e := range ents {
+		n := e.Name()
+		if e.IsDir() || !strings.HasSuffix(n, ".go") || strings.HasSuffix(n, "_test.go") {
+			continue
+		}
+		f, err := parser.ParseFile(fset, filepath.Join(dir, n), nil, 0)
+		if err != nil {
+			die("%v", err)
+		}
+		fs = append(fs, f)
+	}
+	return fs
+}
+
+func returnsError(ft *ast.FuncType) bool {
+	if ft.Results == nil || len(ft.Results.List) == 0 {
+		return false
+	}
+	last := ft.Results.List[len(ft.Results.List)-1].Type
+	id, ok := last.(*ast.Ident)
+	return ok && id.Name == "error"
+}
+
+func handlerShapes(repo string) []shape {
+	// names of functions / interface methods under x/ that return an error in last position
+	errFuncs := map[string]bool{}
+	filepath.Walk(filepath.Join(repo, "x"), func(path string, info os.FileInfo, err error) error {
+		if err != nil || info.IsDir() || !strings.HasSuffix(path, ".go") || strings.HasSuffix(path, "_test.go") || strings.HasSuffix(path, ".pb.go") || strings.HasSuffix(path, ".pb.gw.go") {
+			return nil
+		}
+		f, perr := parser.ParseFile(fset, path, nil, 0)
+		if perr != nil {
+			die("%v", perr)
+		}
+		ast.Inspect(f, func(n ast.Node) bool {
+			switch x := n.(type) {
+			case *ast.FuncDecl:
+				if returnsError(x.Type) {
+					errFuncs[x.Name.Name] = true
+				}
+			case *ast.InterfaceType:
+				for _, m := range x.Methods.List {
+					if ft, ok := m.Type.(*ast.FuncType); ok && len(m.Names) == 1 && returnsError(ft) {
+						errFuncs[m.Names[0].Name] = true
+					}
+				}
+			}
+			return true
+		})
+		return nil
+	})
+
+	appf, err := parser.ParseFile(fset, filepath.Join(repo, "app/app.go"), nil, 0)
+	if err != nil {
+		die("%v", err)
+	}
+	imports := map[string]string{} // alias -> import path
+	for _, im := range appf.Imports {
+		path := strings.Trim(im.Path.Value, "\"")
+		alias := path[strings.LastIndex(path, "/")+1:]
+		if im.Name != nil {
+			alias = im.Name.Name
+		}
+		imports[alias] = path
+	}
+	var ctors [][2]string // (alias, constructor)
+	ast.Inspect(appf, func(n ast.Node) bool {
+		ce, ok := n.(*ast.CallExpr)
+		if !ok {
+			return true
+		}
+		se, ok := ce.Fun.(*ast.SelectorExpr)
+		if !ok || se.Sel.Name != "NewProposalRouter" || len(ce.Args) != 1 {
+			return true
+		}
+		cl, ok := ce.Args[0].(*ast.CompositeLit)
+		if !ok {
+			die("app.go: NewProposalRouter argument is not a composite literal")
+		}
+		for _, el := range cl.Elts {
+			c, ok := el.(*ast.CallExpr)
+			if !ok {
+				die("app.go: router element %q", src(el))
+			}
+			s, ok := c.Fun.(*ast.SelectorExpr)
+			if !ok {
+				die("app.go: router element %q", src(el))
+			}
+			ctors = append(ctors, [2]string{src(s.X), s.Sel.Name})
+		}
+		return false
+	})
+	if len(ctors) == 0 {
+		die("app.go: no handlers found in NewProposalRouter")
+	}
+	const prefix = "github.com/KiraCore/sekai/"
+	var out []shape
+	for _, c := range ctors {
+		path, ok := imports[c[0]]
+		if !ok || !strings.HasPrefix(path, prefix) {
+			die("app.go: handler package %q", c[0])
+		}
+		files := parseDir(filepath.Join(repo, strings.TrimPrefix(path, prefix)))
+		typ := ""
+		for _, f := range files {
+			for _, d := range f.Decls {
+				if fd, ok := d.(*ast.FuncDecl); ok && fd.Recv == nil && fd.Name.Name == c[1] && fd.Type.Results != nil && len(fd.Type.Results.List) == 1 {
+					t := fd.Type.Results.List[0].Type
+					if st, ok := t.(*ast.StarExpr); ok {
+						t = st.X
+					}
+					typ = src(t)
+				}
+			}
+		}
+		if typ == "" {
+			die("constructor %s.%s not found", c[0], c[1])
+		}
+		var apply *ast.FuncDecl
+		for _, f := range files {
+			for _, d := range f.Decls {
+				fd, ok := d.(*ast.FuncDecl)
+				if !ok || fd.Name.Name != "Apply" || fd.Recv == nil || len(fd.Recv.List) != 1 {
+					continue
+				}
+				t := fd.Recv.List[0].Type
+				if st, ok := t.(*ast.StarExpr); ok {
+					t = st.X
+				}
+				if src(t) == typ {
+					apply = fd
+				}
+			}
+		}
+		if apply == nil {
+			die("Apply of %s not found", typ)
+		}
+		sh := shape{name: strings.TrimPrefix(path, prefix) + "." + typ}
+		ast.Inspect(apply.Body, func(n ast.Node) bool {
+			switch x := n.(type) {
+			case *ast.IfStmt:
+				cond := src(x.Cond)
+				if strings.Contains(strings.ToLower(cond), "err") && strings.Contains(cond, "!= nil") {
+					ok := false
+					ast.Inspect(x.Body, func(m ast.Node) bool {
+						switch y := m.(type) {
+						case *ast.ReturnStmt:
+							if len(y.Results) > 0 && src(y.Results[len(y.Results)-1]) != "nil" {
+								ok = true
+							}
+						case *ast.CallExpr:
+							if id, isId := y.Fun.(*ast.Ident); isId && id.Name == "panic" {
+								ok = true
+							}
+						}
+						return true
+					})
+					if !ok {
+						b := src(x.Body)
+						if len(b) > 70 {
+							b = b[:70]
+						}
+						sh.findings = append(sh.findings, "swallowed: if "+cond+" "+b)
+					}
+				}
+			case *ast.AssignStmt:
+				if len(x.Rhs) == 1 {
+					if _, isCall := x.Rhs[0].(*ast.CallExpr); isCall {
+						if id, ok := x.Lhs[len(x.Lhs)-1].(*ast.Ident); ok && id.Name == "_" {
+							sh.findings = append(sh.findings, "blank: "+src(x))
+						}
+					}
+				}
+			case *ast.ExprStmt:
+				if ce, ok := x.X.(*ast.CallExpr); ok {
+					name := ""
+					switch f := ce.Fun.(type) {
+					case *ast.SelectorExpr:
+						name = f.Sel.Name
+					case *ast.Ident:
+						name = f.Name
+					}
+					if errFuncs[name] {
+						sh.findings = append(sh.findings, "unchecked: "+src(ce.Fun))
+					}
+				}
+			}
+			return true
+		})
+		out = append(out, sh)
+	}
+	return out
+}
+
+// coqStr: a Coq string literal (printable ASCII only; quotes doubled)
+func coqStr(s string) string {
+	var b strings.Builder
+	b.WriteByte('"')
+	for i := 0; i < len(s); i++ {
+		switch c := s[i]; {
+		case c == '"':
+			b.WriteString("\"\"")
+		case c >= 32 && c <= 126:
+			b.WriteByte(c)
+		default:
+			b.WriteByte('?')
+		}
+	}
+	b.WriteByte('"')
+	return b.String()
 }
